@@ -12,6 +12,8 @@ import (
 	"strconv"
 	"strings"
 	"sync"
+	"sync/atomic"
+	"time"
 
 	"verifharness/hx"
 
@@ -25,8 +27,23 @@ type crashSignal struct{}
 // crashStore panics once `armed` store calls have completed (crash *after* the k-th call returned).
 type crashStore struct {
 	kvstore.KVStore
-	armed int // -1: disarmed; k>=0: crash when the (k+1)-th call is about to return... see after()
-	calls int
+	armed   int // -1: disarmed; k>=0: crash when the (k+1)-th call is about to return... see after()
+	calls   int
+	failAt  int  // >0: the failAt-th store call of the current operation returns errInjected (and is not executed)
+	slowSet atomic.Bool // widen the window around store writes (concurrent scenarios)
+}
+
+var errInjected = ierrors.New("injected store error")
+
+func (c *crashStore) fail() bool {
+	if c.failAt > 0 && c.calls+1 == c.failAt {
+		c.calls++
+		c.failAt = 0
+
+		return true
+	}
+
+	return false
 }
 
 func (c *crashStore) after() {
@@ -38,6 +55,9 @@ func (c *crashStore) after() {
 }
 
 func (c *crashStore) Get(k kvstore.Key) (kvstore.Value, error) {
+	if c.fail() {
+		return nil, errInjected
+	}
 	v, err := c.KVStore.Get(k)
 	c.after()
 
@@ -45,6 +65,12 @@ func (c *crashStore) Get(k kvstore.Key) (kvstore.Value, error) {
 }
 
 func (c *crashStore) Set(k kvstore.Key, v kvstore.Value) error {
+	if c.fail() {
+		return errInjected
+	}
+	if c.slowSet.Load() {
+		time.Sleep(40 * time.Microsecond)
+	}
 	err := c.KVStore.Set(k, v)
 	c.after()
 
@@ -206,6 +232,135 @@ func (w *world) exec(r *hx.Run, op string) string {
 
 			return "ok"
 		}
+	case "fnext", "frelease":
+		if w.seq == nil {
+			return "noobj"
+		}
+		w.trail = append(w.trail, strings.Join(f, "-"))
+		w.cs.calls = 0
+		if f[0] == "frelease" {
+			w.cs.failAt = 1
+			err := w.seq.Release()
+			fired := w.cs.failAt == 0
+			w.cs.failAt = 0
+			if err != nil {
+				if !fired {
+					r.Fail("error-faithful", "Release returned an error although no store call failed", map[string]string{"oracle": "spurious-error", "after": "frelease"})
+				}
+
+				return "err"
+			}
+			if fired {
+				r.Fail("error-faithful", "Release swallowed a store error", map[string]string{"oracle": "swallowed-error", "after": "frelease"})
+			}
+			w.released = true
+
+			return "ok"
+		}
+		w.cs.failAt = 1
+		if f[1] == "set" {
+			w.cs.failAt = 2
+		}
+		n, err := w.seq.Next()
+		fired := w.cs.failAt == 0
+		w.cs.failAt = 0
+		if err != nil {
+			if !fired {
+				r.Fail("error-faithful", "Next returned an error although no store call failed", map[string]string{"oracle": "spurious-error", "after": "fnext"})
+			}
+
+			return "err"
+		}
+		if fired {
+			r.Fail("error-faithful", "Next swallowed a store error", map[string]string{"oracle": "swallowed-error", "after": "fnext"})
+		}
+		tr := append([]string(nil), w.trail...)
+		w.handOut(r, n)
+		w.trail = tr
+
+		return fmt.Sprintf("num %d", n)
+	case "parrel":
+		// G goroutines x K Next calls racing one goroutine that keeps calling Release, with slow store writes; then the
+		// object is abandoned and a fresh object must continue above everything handed out. Judged here only.
+		if w.seq == nil {
+			return "ok"
+		}
+		g, _ := strconv.Atoi(f[1])
+		k, _ := strconv.Atoi(f[2])
+		seq := w.seq
+		w.cs.slowSet.Store(true)
+		var mu sync.Mutex
+		seen := map[uint64]int{}
+		var maxN uint64
+		record := func(n uint64, who string) {
+			mu.Lock()
+			defer mu.Unlock()
+			seen[n]++
+			if seen[n] == 2 {
+				r.Fail("strictly-increasing", fmt.Sprintf("number %d handed out twice (%s, Next racing Release)", n, who),
+					map[string]string{"oracle": "reuse", "after": "parrel"})
+			}
+			if n > maxN {
+				maxN = n
+			}
+		}
+		var wg sync.WaitGroup
+		stop := make(chan struct{})
+		wg.Add(1)
+		go func() {
+			defer wg.Done()
+			for {
+				select {
+				case <-stop:
+					return
+				default:
+					_ = seq.Release()
+				}
+			}
+		}()
+		var nwg sync.WaitGroup
+		for i := 0; i < g; i++ {
+			nwg.Add(1)
+			go func() {
+				defer nwg.Done()
+				last := int64(-1)
+				for j := 0; j < k; j++ {
+					n, err := seq.Next()
+					if err != nil {
+						continue
+					}
+					if int64(n) <= last {
+						r.Fail("strictly-increasing", fmt.Sprintf("one caller got %d after %d (Next racing Release)", n, last),
+							map[string]string{"oracle": "reuse", "after": "parrel"})
+					}
+					last = int64(n)
+					record(n, "same object")
+				}
+			}()
+		}
+		nwg.Wait()
+		close(stop)
+		wg.Wait()
+		w.cs.slowSet.Store(false)
+		for n := range seen {
+			if int64(n) <= w.last {
+				r.Fail("strictly-increasing", fmt.Sprintf("number %d handed out although %d had been handed out before", n, w.last),
+					map[string]string{"oracle": "reuse", "after": "parrel"})
+			}
+		}
+		// abandon and restart: the fresh object must continue above everything handed out
+		fresh, err := kvstore.NewSequence(w.cs, key, 3)
+		if err == nil {
+			for i := 0; i < 8; i++ {
+				n, err := fresh.Next()
+				if err == nil {
+					record(n, "fresh object after restart")
+				}
+			}
+		}
+		w.seq = nil
+
+		return "ok"
 	case "mark":
 		v, err := w.base.Get(key)
 		if ierrors.Is(err, kvstore.ErrKeyNotFound) {
@@ -302,11 +457,20 @@ func genCase(rng *hx.Rng, n int) []string {
 			ops = append(ops, "crash write", fmt.Sprintf("new %d", hx.Pick(rng, intervals)))
 		case x < 91:
 			ops = append(ops, "crash relwrite", fmt.Sprintf("new %d", hx.Pick(rng, intervals)))
-		case x < 96:
+		case x < 94:
 			ops = append(ops, "mark")
+		case x < 95:
+			ops = append(ops, "fnext get")
+		case x < 97:
+			ops = append(ops, "fnext set")
+		case x < 98:
+			ops = append(ops, "frelease")
 		default:
 			ops = append(ops, fmt.Sprintf("par %d %d", rng.Range(2, 4), rng.Range(1, 5)))
 		}
+	}
+	if rng.Chance(1, 12) { // concurrent Next vs Release: always the last request of a case
+		ops = append(ops, fmt.Sprintf("parrel %d %d", rng.Range(2, 4), rng.Range(20, 60)))
 	}
 
 	return ops
@@ -341,7 +505,7 @@ func runCase(r *hx.Run, sub uint64, ops []string) {
 
 func main() {
 	r := hx.Start()
-	r.Rule = "random histories of new/next/release/crash(idle|read|write|relwrite)/mark/par over intervals {1,2,3,5,2^32}; " +
+	r.Rule = "random histories of new/next/release/crash(idle|read|write|relwrite)/fnext(get|set)/frelease (injected store errors)/mark/par/parrel (Next racing Release, slow store writes) over intervals {1,2,3,5,2^32}; " +
 		"non-trivial = at least two restarts/crashes and two numbers handed out; distinct by sha256 of the op lines"
 	if lines := r.ReplayLines(); lines != nil {
 		runCase(r, 0, lines)
@@ -354,6 +518,9 @@ func main() {
 		{"new 1", "next", "new 1", "release", "new 1", "next"},
 		{"new 3", "next", "release", "release", "new 2", "next", "crash write", "new 5", "next"},
 		{"new 2", "next", "crash relwrite", "new 2", "next", "next", "next"},
+		{"new 3", "next", "next", "next", "fnext get", "next", "fnext set", "next", "release", "new 3", "next"},
+		{"new 5", "next", "frelease", "release", "new 2", "next"},
+		{"new 10", "next", "next", "parrel 3 40"},
 	}
 	for _, c := range corpus {
 		runCase(r, 0, c)
